@@ -97,16 +97,25 @@ func parseSV(t string) otto.Value {
 	return v
 }
 
+// strTok renders a string result by its UTF-16 code units exactly as the value holds them (hook of
+// verif_c09.go: a string with an unpaired surrogate is held as []uint16 and would become U+FFFD in ToString).
 func strTok(v otto.Value, e string) string {
 	if e != "" {
 		return e
 	}
-	if !v.IsString() {
+	us, ok := otto.VerifStringUnits(v)
+	if !ok {
 		return "not-a-string:" + h.ValTok(v)
 	}
-	s, _ := v.ToString()
-	return "s:" + h.UnitsHex(s)
+	var b strings.Builder
+	b.WriteString("s:")
+	for _, u := range us {
+		fmt.Fprintf(&b, "%04x", u)
+	}
+	return b.String()
 }
+
+const c13concatHelper = `(function(k,a,b){return (k==="uri"?encodeURI:encodeURIComponent)(a+b)})`
 
 func implC13(line string) string {
 	f := strings.Fields(line)
@@ -165,6 +174,9 @@ func implC13(line string) string {
 	case "enc":
 		name := map[string]string{"uri": "encodeURI", "comp": "encodeURIComponent"}[f[1]]
 		return strTok(c13call(name, []otto.Value{parseSV(f[2])}))
+	case "encc":
+		k, _ := otto.ToValue(f[1])
+		return strTok(c13call(c13concatHelper, []otto.Value{k, parseSV(f[2]), parseSV(f[3])}))
 	case "dec":
 		name := map[string]string{"uri": "decodeURI", "comp": "decodeURIComponent"}[f[1]]
 		return strTok(c13call(name, []otto.Value{parseSV(f[2])}))
@@ -399,6 +411,14 @@ func genMath(c *h.Ctx) {
 			add2("pow", a, b, "m2:pow")
 			add2("atan2", a, b, "m2:atan2")
 		}
+		for _, b := range sp {
+			if c13stable2("pow", c13num(a), c13num(b)) {
+				c.Add("mxo pow "+a+" "+b, "mxo:pow")
+			}
+			if c13stable2("atan2", c13num(a), c13num(b)) {
+				c.Add("mxo atan2 "+a+" "+b, "mxo:atan2")
+			}
+		}
 		c.Add("m2 pow "+a, "m2:onearg")
 		c.Add("m2 atan2 "+a, "m2:onearg")
 	}
@@ -471,6 +491,19 @@ func genMath(c *h.Ctx) {
 }
 
 // ---- strings
+
+func hasLone16(us []uint16) bool {
+	for i := 0; i < len(us); i++ {
+		switch {
+		case us[i] < 0xd800 || us[i] > 0xdfff:
+		case us[i] < 0xdc00 && i+1 < len(us) && us[i+1] >= 0xdc00 && us[i+1] <= 0xdfff:
+			i++
+		default:
+			return true
+		}
+	}
+	return false
+}
 
 func svG(s string) string { return "g:" + hex.EncodeToString([]byte(s)) }
 func svW(us []uint16) string {
@@ -712,6 +745,37 @@ func genStrings(c *h.Ctx) {
 			addStr(c, "dec comp", m, "str:single-edit", false)
 			addStr(c, "unescape", m, "str:single-edit", false)
 		}
+	}
+	// concatenation by the interpreter, then the encoders: halves of pairs, unpaired surrogates, both representations
+	halves := [][]uint16{{}, {'a'}, {0xd800}, {0xdbff}, {0xdc00}, {0xdfff}, {'a', 0xd800}, {0xdc00, 'b'}, {0xd83d, 0xde00}, {0xe9}, {0x20ac, 0xd83d}, {0xde00, '%'}}
+	for _, a := range halves {
+		for _, b := range halves {
+			for _, k := range []string{"uri", "comp"} {
+				c.Add("encc "+k+" "+svW(a)+" "+svW(b), "str:concat")
+				if sa, sb := string(utf16.Decode(a)), string(utf16.Decode(b)); true {
+					if !hasLone16(a) {
+						c.Add("encc "+k+" "+svG(sa)+" "+svW(b), "str:concat")
+					}
+					if !hasLone16(b) {
+						c.Add("encc "+k+" "+svW(a)+" "+svG(sb), "str:concat")
+					}
+					if !hasLone16(a) && !hasLone16(b) {
+						c.Add("encc "+k+" "+svG(sa)+" "+svG(sb), "str:concat")
+					}
+				}
+			}
+		}
+	}
+	for i := 0; i < c.N(1500, 60000); i++ {
+		a := utf16.Encode([]rune(randString(r, 4)))
+		b := utf16.Encode([]rune(randString(r, 4)))
+		if r.Chance(50) && len(a) > 0 {
+			a[len(a)-1] = sur[r.Intn(4)]
+		}
+		if r.Chance(50) && len(b) > 0 {
+			b[0] = sur[r.Intn(4)]
+		}
+		c.Add("encc "+[]string{"uri", "comp"}[r.Intn(2)]+" "+svW(a)+" "+svW(b), "str:concat-random")
 	}
 	// ill-formed UTF-16 in random positions
 	for i := 0; i < c.N(1500, 60000); i++ {
